@@ -98,6 +98,11 @@ pub fn collision_cases(out: &mut Vec<Case>) {
     p("accessor/a+a-max", "T ::= SEQUENCE { a INTEGER (0..3), a-max INTEGER (0..3) }");
     p("accessor/value-min", "T ::= SEQUENCE { value INTEGER (0..3), value-min BOOLEAN }");
     p("accessor/choice-a+is-a", "T ::= CHOICE { a BOOLEAN, is-a NULL }");
+    // names of the constraint types of list elements and DEFAULT values
+    p("element-constraint/foo+foo-values", "T ::= SEQUENCE { foo SEQUENCE OF INTEGER (0..3), foo-values INTEGER (0..3) }");
+    p("element-constraint/foo+fooValues", "T ::= SEQUENCE { foo SET OF BOOLEAN, fooValues BOOLEAN }");
+    p("value-constraint/bar+bar-value", "T ::= SEQUENCE { bar INTEGER (0..3) DEFAULT 2, bar-value BOOLEAN }");
+    p("value-constraint/alternative-a+a-values", "T ::= CHOICE { a SEQUENCE OF BOOLEAN, a-values BOOLEAN }");
     // constants of named numbers / bits
     p("constants/a:b-c+a-b:c", "T ::= SEQUENCE { a INTEGER { b-c(1) } (0..3), a-b INTEGER { c(2) } (0..3) }");
     p("constants/named-numbers-b-c+bC", "T ::= INTEGER { b-c(1), bC(2) } (0..3)");
